@@ -209,7 +209,7 @@ func (w *world) linkFileOf(dir string, idx int) string {
 func (w *world) scenarios(signed string) []scenario {
 	cfg := w.cfg
 	n := len(cfg.Steps)
-	lastFile := fname(n)
+	lastFile := w.fname(n)
 	r := w.r
 	victim := r.Intn(n) // the step whose link is tampered with
 	removedCertain := ""
@@ -304,6 +304,20 @@ func (w *world) verifyAll(signed, final, links string) {
 	expired := w.buildLayout(time.Now().Add(-48 * time.Hour))
 	expiredPath := w.signLayout(expired, "expired", w.cfg.LayoutSigners)
 	scs = append(scs, scenario{name: "tamper:layout-expired", certain: "nz", layout: expiredPath})
+	// `sign -o` onto a file that already exists: a longer one (an earlier, longer version of the
+	// layout) and a shorter one; the result is the honest layout
+	earlier := w.layout
+	earlier.Readme = w.layout.Readme + " - earlier draft: " + strings.Repeat("to be revised. ", 300)
+	tmp := filepath.Join(w.root, "layouts", "earlier-draft.layout")
+	if err := dumpUnsigned(earlier, w.cfg.LayoutDSSE, tmp); err != nil {
+		panic(err)
+	}
+	if longer, err := os.ReadFile(tmp); err == nil {
+		over := w.signLayoutOver(w.layout, "over-longer", w.cfg.LayoutSigners, longer)
+		scs = append(scs, scenario{name: "alt:layout-signed-over-longer-file", certain: "0", layout: over})
+		over = w.signLayoutOver(w.layout, "over-shorter", w.cfg.LayoutSigners, []byte("{}\n"))
+		scs = append(scs, scenario{name: "alt:layout-signed-over-shorter-file", certain: "0", layout: over})
+	}
 	for i, sc := range scs {
 		w.verifyOne(i, sc, signed, final, links)
 	}
@@ -532,7 +546,7 @@ func (w *world) matchProductsCases(final string) {
 	}
 	var prods []string
 	for i := first; i <= n; i++ {
-		prods = append(prods, fname(i))
+		prods = append(prods, w.fname(i))
 	}
 	useStrip := w.r.Bool()
 	useExclude := w.r.Bool()
@@ -543,19 +557,23 @@ func (w *world) matchProductsCases(final string) {
 	}
 	list := []mp{
 		{name: "clean"},
-		{name: "modified", mut: func(d string) { writeFile(filepath.Join(d, fname(n)), []byte("other\n")) }, c: []string{fname(n)}},
+		{name: "modified", mut: func(d string) { writeFile(filepath.Join(d, w.fname(n)), []byte("other\n")) }, c: []string{w.fname(n)}},
 		{name: "added", mut: func(d string) { writeFile(filepath.Join(d, "extra.bin"), []byte("x")) }, b: []string{"extra.bin"}},
-		{name: "removed", mut: func(d string) { os.Remove(filepath.Join(d, fname(n))) }, a: []string{fname(n)}},
+		{name: "removed", mut: func(d string) { os.Remove(filepath.Join(d, w.fname(n))) }, a: []string{w.fname(n)}},
 		{name: "modified+added+removed", mut: func(d string) {
 			writeFile(filepath.Join(d, "extra.bin"), []byte("x"))
 			if len(prods) > 1 {
-				writeFile(filepath.Join(d, fname(1)), []byte("other\n"))
+				writeFile(filepath.Join(d, w.fname(1)), []byte("other\n"))
 			}
-			os.Remove(filepath.Join(d, fname(n)))
-		}, a: []string{fname(n)}, b: []string{"extra.bin"}},
+			os.Remove(filepath.Join(d, w.fname(n)))
+		}, a: []string{w.fname(n)}, b: []string{"extra.bin"}},
 	}
 	if len(prods) > 1 {
-		list[4].c = []string{fname(1)}
+		list[4].c = []string{w.fname(1)}
+	}
+	deliver := "deliver"
+	if cfg.Odd {
+		deliver = "deli,ver"
 	}
 	for i, x := range list {
 		base := filepath.Join(w.root, fmt.Sprintf("m%02d", i))
@@ -563,7 +581,7 @@ func (w *world) matchProductsCases(final string) {
 			d := filepath.Join(base, side)
 			target := d
 			if useStrip {
-				target = filepath.Join(d, "deliver")
+				target = filepath.Join(d, deliver)
 			}
 			for _, p := range prods {
 				copyFile(filepath.Join(src, p), filepath.Join(target, p))
@@ -573,15 +591,16 @@ func (w *world) matchProductsCases(final string) {
 				x.mut(target)
 			}
 			if useExclude {
-				writeFile(filepath.Join(target, "tmp.log"), []byte("scratch"))
+				writeFile(filepath.Join(target, w.scratchName()), []byte("scratch"))
 			}
 		}
 		argv := []string{"match-products", "-l", link}
 		ma := matchArgs{Link: link}
 		if useStrip {
-			argv = append(argv, "-p", "deliver", "--lstrip-paths", "deliver/")
-			ma.Paths = []string{"deliver"}
-			ma.Lstrip = []string{"deliver/"}
+			argv = append(argv, w.flag("p", "path", deliver)...)
+			argv = append(argv, "--lstrip-paths", deliver+"/")
+			ma.Paths = []string{deliver}
+			ma.Lstrip = []string{deliver + "/"}
 		} else if w.cfg.AbsPaths {
 			argv = append(argv, "-p", ".")
 			ma.Paths = []string{"."}
@@ -589,8 +608,8 @@ func (w *world) matchProductsCases(final string) {
 			ma.Paths = []string{"."} // the flag's default value
 		}
 		if useExclude {
-			argv = append(argv, "-e", "tmp*")
-			ma.Exclude = []string{"tmp*"}
+			argv = append(argv, w.flag("e", "exclude", w.scratchPattern())...)
+			ma.Exclude = []string{w.scratchPattern()}
 		}
 		inv := w.cli(filepath.Join(base, "cli"), argv...)
 		lr := runChild("libmatch", filepath.Join(base, "lib"), ma)
